@@ -108,8 +108,8 @@ theorem hasEqLists_disjoint (diff : Differ) (hd : GoodDiffer diff) (fuel : Nat) 
 theorem GInv.emitAll {Ref : String → Prop} {st : St} (h : GInv Ref st) (cs : List Cmd) : GInv Ref (st.emitAll cs) :=
   ⟨h.anodup, h.bnodup, h.ane, h.fresh, h.aplain, h.bplain, h.amemnd, h.bmemnd, h.c0, h.c1, h.c2, h.c3, h.bne⟩
 
-theorem SimG.emitAll {sh : Shared} {st : St} {vg : Vsys} (h : SimG sh st vg) (cs : List Cmd) :
-    SimG sh (st.emitAll cs) vg := ⟨h.U, h.K, h.anames, h.mems⟩
+theorem SimG.emitAll {sh : Shared} {Ref : String → Prop} {st : St} {vg : Vsys} (h : SimG sh Ref st vg) (cs : List Cmd) :
+    SimG sh Ref (st.emitAll cs) vg := ⟨h.U, h.K, h.anames, h.mems⟩
 
 theorem agrp_eq_of_name {l : List AGrp} (hnd : (l.map (·.g.name)).Nodup) {x y : AGrp} (hx : x ∈ l) (hy : y ∈ l)
     (e : x.g.name = y.g.name) : x = y := by
@@ -175,13 +175,13 @@ theorem adaptL_plain (st : St) (l : List String) (h : ∀ y ∈ l, st.bGrpIdx y 
 /-- **`equalizeList`** for lists that hold addresses only or exactly one group. -/
 theorem equalizeList_sim {sh : Shared} {Ref : String → Prop} (diff : Differ) (hd : GoodDiffer diff)
     (hid : IdentityDiffer diff) (fuel : Nat) (st : St) (vg : Vsys) (la lb : List String) (n : String) (f : Fld)
-    (hI : GInv Ref st) (hS : SimG sh st vg) (hne : la ≠ [])
+    (hI : GInv Ref st) (hS : SimG sh Ref st vg) (hne : la ≠ [])
     (hA : (∀ x ∈ la, st.aGrpIdx x = none) ∨ (∃ g, la = [g] ∧ (st.aGrpIdx g).isSome = true))
     (hB : (∀ y ∈ lb, st.bGrpIdx y = none) ∨ (∃ g, lb = [g] ∧ (st.bGrpIdx g).isSome = true ∧ Ref g))
     (hdA : ∀ x ∈ la, st.aGrpIdx x = none → ∀ gb ∈ st.bGrp, x ≠ gb.newName)
     (hdB : ∀ y ∈ lb, st.bGrpIdx y = none → ∀ ga ∈ st.aGrp, y ≠ ga.g.name) :
     ∃ st' vg', equalizeList diff (fuel + 2) st la lb n f = st' ∧
-      Step sh st vg st' vg' (fieldCmds diff n f la (adaptL st' lb)) ∧ GInv Ref st' ∧ SimG sh st' vg' ∧
+      Step sh st vg st' vg' (fieldCmds diff n f la (adaptL st' lb)) ∧ GInv Ref st' ∧ SimG sh Ref st' vg' ∧
       GSettled st' lb := by
   rcases hA with hA | ⟨g1, rfl, hg1⟩
   · rcases hB with hB | ⟨g2, rfl, hg2, href⟩
@@ -289,7 +289,7 @@ theorem equalizeList_sim {sh : Shared} {Ref : String → Prop} (diff : Differ) (
       obtain ⟨gb, hgb, hgbname⟩ := bGrp_of_idx hgbi
       have hgbmem : gb ∈ st.bGrp := List.mem_of_getElem? hgb
       obtain ⟨b, st2, vg2, he, hstep, i2, s2, htrue, hfalse⟩ := eqGroups_sim (sh := sh) diff hd hid fuel st vg gai gbi
-        ga gb hI hS hga hgb
+        ga gb hI hS hga hgb (by rw [hgbname]; exact href)
       have hrs : diff 1 1 (fun i j => memberEq st ([g1].getD i "") ([g2].getD j "")) = [⟨0, 1, 0, 1⟩] := by
         apply hid
         intro i hi
